@@ -125,6 +125,13 @@ class LockStep:
             if same:
                 return 'ok', info, [], pre, post, ref
         diffs = RS.compare(ref, post)
+        if diffs and info.get('cond_passed') is False:
+            # an instruction that is UNDEFINED in this state (mode, security...) and fails its condition may either be a
+            # NOP or take the Undefined Instruction exception (IMPLEMENTATION DEFINED)
+            v2, ref2, info2 = RS.step(pre, ctx.cfg, force_cond=True)
+            if v2 == 'ok' and ref2.events == ['undef'] and not RS.compare(ref2, post):
+                self.bump('undefined_with_failed_condition_trapped')
+                return 'ok', info, [], pre, post, ref
         return 'ok', info, diffs, pre, post, ref
 
     def judge(self, ctx, desc, tag, keyfn=None):
